@@ -192,11 +192,22 @@ class Worker:
             line = self.proc.stdout.readline()
             if not line:
                 raise RuntimeError("lpcvm server died")
+            if not line.strip():
+                continue
             try:
                 r = json.loads(line)
             except ValueError:
-                recs.append({"st": "garbled", "raw": line[:200].decode("latin-1")})
-                continue
+                # a record cut short by the child's death may have the parent's exit record glued to it
+                k = line.rfind(b'{"st":"exit"')
+                if k > 0:
+                    recs.append({"st": "garbled", "raw": line[:200].decode("latin-1")})
+                    try:
+                        r = json.loads(line[k:])
+                    except ValueError:
+                        continue
+                else:
+                    recs.append({"st": "garbled", "raw": line[:200].decode("latin-1")})
+                    continue
             if r.get("st") == "exit":
                 return CaseResult(recs, r)
             recs.append(r)
